@@ -1267,12 +1267,14 @@ Section Converters.
   Qed.
 
   (* ----- imports ----- *)
-  Lemma tot_convert_import_items c nodes : kids_ok nodes -> tot (convert_import_items swidth cfg c nodes) (sumN W nodes).
+  Lemma tot_convert_import_items c nodes mr : kids_ok nodes -> tot (convert_import_items swidth cfg c nodes mr) (sumN W nodes).
   Proof.
     intros Hk. unfold convert_import_items.
-    pose proof (import_order_permutation cfg nodes) as Hp.
+    set (nodes' := import_items_final cfg mr nodes).
+    assert (Hp : Permutation nodes' nodes).
+    { unfold nodes', import_items_final. destruct mr; [apply import_order_permutation|apply Permutation_refl]. }
     rewrite <- (sumN_perm W _ _ Hp).
-    assert (Hk' : kids_ok (import_items_order cfg nodes)).
+    assert (Hk' : kids_ok nodes').
     { unfold kids_ok in *. rewrite Forall_forall in *. intros x Hx. apply Hk. eapply Permutation_in; eassumption. }
     apply tot_bind_r; [|intros; apply tot_ret_any].
     apply tot_lst_process. intros c' b Hin.
